@@ -7,8 +7,7 @@
      C06.c_header : the C header (read back the way a compiler would: declarations + initialiser list) declares the geometry,
                     the count and the rate of the structure and an array that is exactly the hex form
    A trace is [id, kind, m, k, w, est, rate4, mode, bs, ms, cap, fb, qmax, keys, ev]; an event is
-   [op, k (key index), a (amount / force flag), bytes, hex, ans, hdr, ch]  (hdr.on = 0: no header taken at this step; ch: the random draws a
-   cuckoo insertion consumed).  Every trace gets a verdict.           *)
+   [op, k (key index), a (amount / force flag), bytes, hex, ans, hdr]  (hdr.on = 0: no header taken at this step).  Every trace gets a verdict.           *)
 EXTENDS Layout, TLC, Json
 
 Traces == JsonDeserialize("traces.json")
@@ -30,7 +29,7 @@ PTab(t) ==
   ELSE LET tr == Traces[t] IN
        [i \in 1..Len(tr.keys) |->
           IF tr.kind \in {"cko", "ccko"}
-          THEN LET f == FpInt(tr.keys[i], tr.fb) IN <<f, f % tr.cap, ModSmall(Fnv64s(DecDigits(f), 0), tr.cap)>>
+          THEN LET f == FpInt(tr.keys[i], tr.fb) IN <<f, Fnv64s(DecDigits(f), 0)>>      \* fingerprint, hash of its decimal digits (alternate bucket = that mod capacity)
           ELSE Positions(tr.keys[i], tr.k, IF tr.kind = "cms" THEN tr.w ELSE tr.m)]
 
 InitState(t) ==
@@ -40,7 +39,7 @@ InitState(t) ==
          [] tr.kind = "cbloom" -> [cells |-> NoBits(tr.m), n |-> 0]
          [] tr.kind = "cms" -> [cells |-> NoBits(tr.w * tr.k), n |-> 0]
          [] tr.kind \in {"ebf", "rbf"} -> [subs |-> <<[bits |-> NoBits(tr.m), n |-> 0]>>, n |-> 0]
-         [] OTHER -> [buckets |-> [i \in 1..tr.cap |-> <<>>], n |-> 0]
+         [] OTHER -> [ents |-> {}, n |-> 0]      \* cuckoo: the stored <<fingerprint, count>> pairs; WHERE each sits is the library's (random) choice
 
 -----------------------------------------------------------------------------
 (* reference semantics of the operations, on positions *)
@@ -55,26 +54,8 @@ InBits(bits, ps) == \A i \in 1..Len(ps) : bits[ps[i] + 1] = 1
 InSubs(subs, ps) == \E i \in 1..Len(subs) : InBits(subs[i].bits, ps)
 
 Fp4(f) == ToLimbs(f, 4)
-(* evictions: the recorded draws (ch: first the side, then one slot per swap) resolve the library's random choices, so the reference
-   writer follows the kick chain: the incoming element replaces the victim in the drawn slot, the victim moves to its other bucket
-   (fingerprint mod capacity / hash of the fingerprint's decimal digits mod capacity) or becomes the next incoming element *)
-ElFp(e) == IF Len(e) = 2 THEN e[1] ELSE e                      \* a counting bin is <<fingerprint limbs, count>>
-FpVal(lm) == lm[1] + 256 * lm[2] + 65536 * lm[3]                    \* fingerprints of at most 3 bytes
-RECURSIVE KickSeq(_, _, _, _, _, _, _)
-KickSeq(b, idx, e, ch, j, cap, bs) ==
-  IF j > Len(ch) \/ ch[j] + 1 > Len(b[idx]) THEN b            \* total: draws the model cannot follow leave the table (the bytes then differ)
-  ELSE LET slot == ch[j] + 1
-           victim == b[idx][slot]
-           b2 == [b EXCEPT ![idx][slot] = e]
-           vf == FpVal(ElFp(victim))
-           i1 == (vf % cap) + 1
-           i2 == ModSmall(Fnv64s(DecDigits(vf), 0), cap) + 1
-           nidx == IF idx = i1 THEN i2 ELSE i1
-       IN IF Len(b2[nidx]) < bs THEN [b2 EXCEPT ![nidx] = Append(@, victim)]
-          ELSE KickSeq(b2, nidx, victim, ch, j + 1, cap, bs)
-Kicked(b, i1, i2, e, ch, cap, bs) ==
-  IF Len(ch) < 2 THEN b ELSE KickSeq(b, IF ch[1] = 0 THEN i1 ELSE i2, e, ch, 2, cap, bs)
-HasFp(b, f) == \E i \in 1..Len(b) : (IF Len(b[i]) = 2 THEN b[i][1] ELSE b[i]) = Fp4(f)
+CntOf(ents, f) == IF \E x \in ents : x[1] = Fp4(f) THEN (CHOOSE x \in ents : x[1] = Fp4(f))[2] ELSE 0
+SetCnt(ents, f, c) == {x \in ents : x[1] # Fp4(f)} \cup (IF c > 0 THEN {<<Fp4(f), c>>} ELSE {})
 
 Apply(s, e) ==
   LET tr == T  ps == IF e.k > 0 THEN ptab[e.k] ELSE <<>> IN
@@ -106,28 +87,36 @@ Apply(s, e) ==
                  [s EXCEPT !.subs = IF tr.kind = "rbf" /\ Len(@) >= tr.qmax THEN Append(Tail(@), new) ELSE Append(@, new)]
             [] OTHER -> [s EXCEPT !.subs = IF Len(@) > 1 THEN Tail(@) ELSE @])      \* pop; total: a pop the model cannot take (the recorder pops when the
                                                                                     \* CODE reports more than one filter) leaves the state, the bytes then differ
-    [] tr.kind = "cko" ->      \* histories without evictions only: first bucket with room
-         (LET f == ps[1]  i1 == ps[2] + 1  i2 == ps[3] + 1 IN
-          CASE e.op = "add" ->
-                 IF HasFp(s.buckets[i1], f) \/ HasFp(s.buckets[i2], f) THEN s
-                 ELSE IF Len(s.buckets[i1]) < tr.bs THEN [s EXCEPT !.buckets[i1] = Append(@, Fp4(f))]
-                 ELSE IF Len(s.buckets[i2]) < tr.bs THEN [s EXCEPT !.buckets[i2] = Append(@, Fp4(f))]
-                 ELSE [s EXCEPT !.buckets = Kicked(@, i1, i2, Fp4(f), e.ch, tr.cap, tr.bs)]
-            [] OTHER ->
-                 IF HasFp(s.buckets[i1], f) THEN [s EXCEPT !.buckets[i1] = SelectSeq(@, LAMBDA x : x # Fp4(f))]
-                 ELSE [s EXCEPT !.buckets[i2] = SelectSeq(@, LAMBDA x : x # Fp4(f))])
-    [] OTHER ->                \* counting cuckoo
-         (LET f == ps[1]  i1 == ps[2] + 1  i2 == ps[3] + 1
-              ib == IF HasFp(s.buckets[i1], f) THEN i1 ELSE IF HasFp(s.buckets[i2], f) THEN i2 ELSE 0 IN
-          CASE e.op = "add" ->
-                 IF ib > 0 THEN [s EXCEPT !.buckets[ib] = [jj \in 1..Len(@) |-> IF @[jj][1] = Fp4(f) THEN <<@[jj][1], @[jj][2] + 1>> ELSE @[jj]]]
-                 ELSE IF Len(s.buckets[i1]) < tr.bs THEN [s EXCEPT !.buckets[i1] = Append(@, <<Fp4(f), 1>>)]
-                 ELSE IF Len(s.buckets[i2]) < tr.bs THEN [s EXCEPT !.buckets[i2] = Append(@, <<Fp4(f), 1>>)]
-                 ELSE [s EXCEPT !.buckets = Kicked(@, i1, i2, <<Fp4(f), 1>>, e.ch, tr.cap, tr.bs)]
-            [] OTHER ->
-                 IF ib = 0 THEN s
-                 ELSE [s EXCEPT !.buckets[ib] = SelectSeq([jj \in 1..Len(@) |-> IF @[jj][1] = Fp4(f) THEN <<@[jj][1], @[jj][2] - 1>> ELSE @[jj]],
-                                                          LAMBDA x : x[2] > 0)])
+    [] tr.kind = "cko" ->      \* a set of fingerprints: adding a stored one changes nothing
+         (LET f == ps[1] IN
+          IF e.op = "add" THEN [s EXCEPT !.ents = SetCnt(@, f, 1)] ELSE [s EXCEPT !.ents = SetCnt(@, f, 0)])
+    [] OTHER ->                \* counting cuckoo: a bag
+         (LET f == ps[1]  c == CntOf(s.ents, f) IN
+          IF e.op = "add" THEN [s EXCEPT !.ents = SetCnt(@, f, c + 1)] ELSE [s EXCEPT !.ents = SetCnt(@, f, IF c > 0 THEN c - 1 ELSE 0)])
+
+(* cuckoo exports: WHERE a fingerprint sits (which of its two buckets, which slot) is decided by the library's random evictions and is not
+   part of the documented layout, so the reference does not predict the table: it READS the export back and requires that it is a
+   well-formed table - whole buckets of bucket_size 32-bit slots (fingerprint, or fingerprint + count), footer bucket_size / max_swaps,
+   0 = empty - holding exactly the fingerprints (and counts) the history gives, each once, each in one of the two buckets the documented
+   hashing rule gives it for the capacity the export has *)
+CkW == IF T.kind = "cko" THEN 4 ELSE 8
+CkCap(b) == (Len(b) - 8) \div (T.bs * CkW)
+CkSlot(b, i, jj) == LET off == ((i - 1) * T.bs + (jj - 1)) * CkW IN
+                    <<SubSeq(b, off + 1, off + 4), IF CkW = 8 THEN U32(b, off + 4) ELSE 1>>
+CkHome(fp4, cap) ==      \* the two buckets (0-based) of a fingerprint that belongs to a key of the trace; {} for a foreign one
+  LET ks == {i \in 1..Len(ptab) : Fp4(ptab[i][1]) = fp4} IN
+  IF ks = {} THEN {} ELSE LET i == CHOOSE x \in ks : TRUE IN {ptab[i][1] % cap, ModSmall(ptab[i][2], cap)}
+CuckooOK(b, ents) ==
+  /\ Len(b) >= 8 + T.bs * CkW /\ (Len(b) - 8) % (T.bs * CkW) = 0
+  /\ \A i \in 1..Len(b) : b[i] \in 0..255
+  /\ SubSeq(b, Len(b) - 7, Len(b)) = LE(T.bs, 4) \o LE(T.ms, 4)
+  /\ LET cap == CkCap(b)
+         used == {<<i, jj>> \in (1..cap) \X (1..T.bs) : CkSlot(b, i, jj)[1] # <<0, 0, 0, 0>>}
+     IN /\ Cardinality(used) = Cardinality(ents)                                       \* each stored once
+        /\ {CkSlot(b, x[1], x[2]) : x \in used} = ents                                \* exactly the history's fingerprints (and counts)
+        /\ \A x \in used : (x[1] - 1) \in CkHome(CkSlot(b, x[1], x[2])[1], cap)        \* in one of its two buckets
+        /\ (CkW = 8 => \A i \in 1..cap : \A jj \in 1..T.bs :                            \* an empty bin has no count
+                        CkSlot(b, i, jj)[1] = <<0, 0, 0, 0>> => CkSlot(b, i, jj)[2] = 0)
 
 Encode(s) ==
   LET tr == T IN
@@ -135,8 +124,7 @@ Encode(s) ==
     [] tr.kind = "cbloom" -> EncodeCounting(s.cells, tr.est, s.n, tr.rate4)
     [] tr.kind = "cms" -> EncodeCMS(s.cells, tr.w, tr.k, s.n)
     [] tr.kind \in {"ebf", "rbf"} -> EncodeExpanding(s.subs, tr.m, tr.est, s.n, tr.rate4)
-    [] tr.kind = "cko" -> EncodeCuckoo(s.buckets, tr.bs, tr.ms)
-    [] OTHER -> EncodeCountingCuckoo(s.buckets, tr.bs, tr.ms)
+    [] OTHER -> <<>>      \* cuckoo: see CuckooOK
 
 HexOK(s, e) ==
   LET tr == T IN
@@ -169,7 +157,8 @@ Init == tid = 1 /\ l = 1 /\ st = InitState(1) /\ ptab = PTab(1) /\ fails = {}
 Step == /\ tid <= NT /\ l <= Len(T.ev)
         /\ LET e == T.ev[l]  s2 == Apply(st, e) IN
            /\ st' = s2
-           /\ fails' = fails \cup (IF Encode(s2) # e.bytes THEN {<<"C06.writer", l>>} ELSE {})
+           /\ fails' = fails \cup (IF (IF T.kind \in {"cko", "ccko"} THEN ~CuckooOK(e.bytes, s2.ents) ELSE Encode(s2) # e.bytes)
+                                   THEN {<<"C06.writer", l>>} ELSE {})
                              \cup (IF ~ReaderOK(e) THEN {<<"C06.reader", l>>} ELSE {})
                              \cup (IF ~HexOK(s2, e) THEN {<<"C06.hex", l>>} ELSE {})
                              \cup (IF ~HeaderOK(s2, e) THEN {<<"C06.c_header", l>>} ELSE {})
